@@ -293,7 +293,7 @@ func WellFormed(w World, allowRepeatPositional bool) bool {
 				}
 			}
 		case ArgNamed, ArgTyped:
-			if a.Label.Type < 0 || (a.Label.Type >= IfaceBase && a.Label.Type < TwinBase) || a.Label.Type == ErrIface || a.Label.Type >= NumTypesAll {
+			if a.Label.Type < 0 || (a.Label.Type >= IfaceBase && a.Label.Type < TwinBase) || a.Label.Type == ErrIface || a.Label.Type == IfaceWide || a.Label.Type >= NumTypesAll {
 				return false
 			}
 			if (a.Kind == ArgNamed) != (a.Label.Name != "") {
